@@ -37,7 +37,7 @@ fn op_kind(op: &Operation<CurrencyAmount>) -> &'static str {
 }
 
 /// `b` reproduces `a` exactly: dates, tickers, kinds, decimals (proved), currencies (a zero optional fee/tax may lose its label)
-fn same_transactions(leaf: &mut Leaf, tag: &str, a: &[Transaction], b: &[Transaction]) {
+pub(crate) fn same_transactions(leaf: &mut Leaf, tag: &str, a: &[Transaction], b: &[Transaction]) {
     if !leaf.ob_bool(&format!("{tag}.same-length"), a.len() == b.len(), &format!("{} vs {} transactions", a.len(), b.len())) {
         return;
     }
@@ -70,6 +70,10 @@ fn same_transactions(leaf: &mut Leaf, tag: &str, a: &[Transaction], b: &[Transac
 }
 
 pub fn c14(sk: &Skeleton) -> Leaf {
+    #[cfg(feature = "mcp")]
+    if sk.opt_str("variant").as_deref() == Some("mcp") {
+        return super::mcp::c14_mcp(sk);
+    }
     let mode = Mode::parse(&sk.opt_str("mode").unwrap_or_else(|| "QPF".into()));
     let lines = ledger::instantiate(sk, "lines", &mode);
     let txs = ledger::to_transactions(&lines);
@@ -239,7 +243,7 @@ pub fn c15_on_panic(leaf: &mut Leaf) {
 }
 
 // ------------------------------------------------------------------------------------------------ C17
-fn half_away(v: Decimal) -> Decimal {
+pub(crate) fn half_away(v: Decimal) -> Decimal {
     v.round_dp_with_strategy(2, RoundingStrategy::MidpointAwayFromZero)
 }
 
@@ -314,7 +318,85 @@ impl<'a> TextCheck<'a> {
     }
 }
 
+/// Every figure of a JSON-serialised report mapped back to its term and compared with the computed report (shared by the
+/// JSON front-end check and the MCP calculate_report check).
+pub fn json_report_figures(js: &Value, rep: &TaxReport, atoms: &mut Vec<vx::B>, problems: &mut Vec<String>) {
+    let mut jmoney = |what: &str, v: &Value, expect: Decimal, atoms: &mut Vec<vx::B>, problems: &mut Vec<String>| match v.as_str().and_then(|s| Decimal::from_str(s).ok()) {
+        Some(d) => {
+            // shown in full or rounded to pence, midpoints away from zero
+            atoms.push(vx::or(&[vx::eq_l(&format!("json {what} in full"), d, expect), vx::eq_l(&format!("json {what} rounded half away from zero"), d, half_away(expect))]));
+        }
+        None => problems.push(format!("json {what}: {v} is not a decimal string")),
+    };
+    let jexact = |what: &str, v: &Value, expect: Decimal, atoms: &mut Vec<vx::B>, problems: &mut Vec<String>| match v.as_str().and_then(|s| Decimal::from_str(s).ok()) {
+        Some(d) => atoms.push(vx::eq_l(&format!("json {what}"), d, expect)),
+        None => problems.push(format!("json {what}: {v} is not a decimal string")),
+    };
+    let jy = js["tax_years"].as_array().cloned().unwrap_or_default();
+    if jy.len() != rep.tax_years.len() {
+        problems.push("json lists a different number of tax years".into());
+    }
+    for (y, j) in rep.tax_years.iter().zip(jy.iter()) {
+        let yr = y.period.start_year();
+        let want_period = format!("{}/{:02}", yr, (yr + 1) % 100);
+        if j["period"].as_str() != Some(want_period.as_str()) {
+            problems.push(format!("json period {} for tax year {want_period}", j["period"]));
+        }
+        jmoney(&format!("total_gain {yr}"), &j["total_gain"], y.total_gain, atoms, problems);
+        jmoney(&format!("total_loss {yr}"), &j["total_loss"], y.total_loss, atoms, problems);
+        jmoney(&format!("net_gain {yr}"), &j["net_gain"], y.net_gain, atoms, problems);
+        jmoney(&format!("exempt_amount {yr}"), &j["exempt_amount"], y.exempt_amount, atoms, problems);
+        jmoney(&format!("dividend_income {yr}"), &j["dividend_income"], y.dividend_income, atoms, problems);
+        jmoney(&format!("dividend_tax_paid {yr}"), &j["dividend_tax_paid"], y.dividend_tax_paid, atoms, problems);
+        if j["disposal_count"].as_u64() != Some(y.disposals.len() as u64) {
+            problems.push(format!("json disposal_count {yr}"));
+        }
+        let jd = j["disposals"].as_array().cloned().unwrap_or_default();
+        if jd.len() != y.disposals.len() {
+            problems.push(format!("json lists a different number of disposals in {yr}"));
+        }
+        for (d, k) in y.disposals.iter().zip(jd.iter()) {
+            let name = format!("{} {}", d.ticker, d.date);
+            if k["date"].as_str() != Some(d.date.to_string().as_str()) || k["ticker"].as_str() != Some(d.ticker.as_str()) {
+                problems.push(format!("json disposal identity {name}"));
+            }
+            jexact(&format!("quantity {name}"), &k["quantity"], d.quantity, atoms, problems);
+            jmoney(&format!("gross_proceeds {name}"), &k["gross_proceeds"], d.gross_proceeds, atoms, problems);
+            jmoney(&format!("proceeds {name}"), &k["proceeds"], d.proceeds, atoms, problems);
+            let jm = k["matches"].as_array().cloned().unwrap_or_default();
+            if jm.len() != d.matches.len() {
+                problems.push(format!("json lists a different number of legs for {name}"));
+            }
+            for (m, n) in d.matches.iter().zip(jm.iter()) {
+                jexact(&format!("leg quantity {name}"), &n["quantity"], m.quantity, atoms, problems);
+                jmoney(&format!("leg allowable_cost {name}"), &n["allowable_cost"], m.allowable_cost, atoms, problems);
+                jmoney(&format!("leg gain_or_loss {name}"), &n["gain_or_loss"], m.gain_or_loss, atoms, problems);
+                let want_rule = format!("{:?}", m.rule);
+                if n["rule"].as_str() != Some(want_rule.as_str()) {
+                    problems.push(format!("json leg rule {name}"));
+                }
+                let want_acq = m.acquisition_date.map(|a| a.to_string());
+                if n.get("acquisition_date").and_then(|x| x.as_str()).map(|s| s.to_string()) != want_acq {
+                    problems.push(format!("json leg acquisition date {name}"));
+                }
+            }
+        }
+    }
+    let jh = js["holdings"].as_array().cloned().unwrap_or_default();
+    if jh.len() != rep.holdings.len() {
+        problems.push("json lists a different number of holdings".into());
+    }
+    for (h, k) in rep.holdings.iter().zip(jh.iter()) {
+        jexact(&format!("holding quantity {}", h.ticker), &k["quantity"], h.quantity, atoms, problems);
+        jmoney(&format!("holding total_cost {}", h.ticker), &k["total_cost"], h.total_cost, atoms, problems);
+    }
+}
+
 pub fn c17(sk: &Skeleton) -> Leaf {
+    #[cfg(feature = "mcp")]
+    if sk.opt_str("variant").as_deref() == Some("mcp") {
+        return super::mcp::c17_mcp(sk);
+    }
     let mode = Mode::parse(&sk.opt_str("mode").unwrap_or_else(|| "QPF".into()));
     let lines = ledger::instantiate(sk, "lines", &mode);
     let txs = ledger::to_transactions(&lines);
@@ -346,75 +428,7 @@ pub fn c17(sk: &Skeleton) -> Leaf {
     let js: Value = serde_json::to_value(&rep).unwrap_or(Value::Null);
     let mut atoms = Vec::new();
     let mut problems: Vec<String> = Vec::new();
-    let mut jmoney = |what: &str, v: &Value, expect: Decimal, atoms: &mut Vec<vx::B>, problems: &mut Vec<String>| match v.as_str().and_then(|s| Decimal::from_str(s).ok()) {
-        Some(d) => {
-            // shown in full or rounded to pence, midpoints away from zero
-            atoms.push(vx::or(&[vx::eq_l(&format!("json {what} in full"), d, expect), vx::eq_l(&format!("json {what} rounded half away from zero"), d, half_away(expect))]));
-        }
-        None => problems.push(format!("json {what}: {v} is not a decimal string")),
-    };
-    let jexact = |what: &str, v: &Value, expect: Decimal, atoms: &mut Vec<vx::B>, problems: &mut Vec<String>| match v.as_str().and_then(|s| Decimal::from_str(s).ok()) {
-        Some(d) => atoms.push(vx::eq_l(&format!("json {what}"), d, expect)),
-        None => problems.push(format!("json {what}: {v} is not a decimal string")),
-    };
-    let jy = js["tax_years"].as_array().cloned().unwrap_or_default();
-    if jy.len() != rep.tax_years.len() {
-        problems.push("json lists a different number of tax years".into());
-    }
-    for (y, j) in rep.tax_years.iter().zip(jy.iter()) {
-        let yr = y.period.start_year();
-        let want_period = format!("{}/{:02}", yr, (yr + 1) % 100);
-        if j["period"].as_str() != Some(want_period.as_str()) {
-            problems.push(format!("json period {} for tax year {want_period}", j["period"]));
-        }
-        jmoney(&format!("total_gain {yr}"), &j["total_gain"], y.total_gain, &mut atoms, &mut problems);
-        jmoney(&format!("total_loss {yr}"), &j["total_loss"], y.total_loss, &mut atoms, &mut problems);
-        jmoney(&format!("net_gain {yr}"), &j["net_gain"], y.net_gain, &mut atoms, &mut problems);
-        jmoney(&format!("exempt_amount {yr}"), &j["exempt_amount"], y.exempt_amount, &mut atoms, &mut problems);
-        jmoney(&format!("dividend_income {yr}"), &j["dividend_income"], y.dividend_income, &mut atoms, &mut problems);
-        jmoney(&format!("dividend_tax_paid {yr}"), &j["dividend_tax_paid"], y.dividend_tax_paid, &mut atoms, &mut problems);
-        if j["disposal_count"].as_u64() != Some(y.disposals.len() as u64) {
-            problems.push(format!("json disposal_count {yr}"));
-        }
-        let jd = j["disposals"].as_array().cloned().unwrap_or_default();
-        if jd.len() != y.disposals.len() {
-            problems.push(format!("json lists a different number of disposals in {yr}"));
-        }
-        for (d, k) in y.disposals.iter().zip(jd.iter()) {
-            let name = format!("{} {}", d.ticker, d.date);
-            if k["date"].as_str() != Some(d.date.to_string().as_str()) || k["ticker"].as_str() != Some(d.ticker.as_str()) {
-                problems.push(format!("json disposal identity {name}"));
-            }
-            jexact(&format!("quantity {name}"), &k["quantity"], d.quantity, &mut atoms, &mut problems);
-            jmoney(&format!("gross_proceeds {name}"), &k["gross_proceeds"], d.gross_proceeds, &mut atoms, &mut problems);
-            jmoney(&format!("proceeds {name}"), &k["proceeds"], d.proceeds, &mut atoms, &mut problems);
-            let jm = k["matches"].as_array().cloned().unwrap_or_default();
-            if jm.len() != d.matches.len() {
-                problems.push(format!("json lists a different number of legs for {name}"));
-            }
-            for (m, n) in d.matches.iter().zip(jm.iter()) {
-                jexact(&format!("leg quantity {name}"), &n["quantity"], m.quantity, &mut atoms, &mut problems);
-                jmoney(&format!("leg allowable_cost {name}"), &n["allowable_cost"], m.allowable_cost, &mut atoms, &mut problems);
-                jmoney(&format!("leg gain_or_loss {name}"), &n["gain_or_loss"], m.gain_or_loss, &mut atoms, &mut problems);
-                let want_rule = format!("{:?}", m.rule);
-                if n["rule"].as_str() != Some(want_rule.as_str()) {
-                    problems.push(format!("json leg rule {name}"));
-                }
-                let want_acq = m.acquisition_date.map(|a| a.to_string());
-                if n.get("acquisition_date").and_then(|x| x.as_str()).map(|s| s.to_string()) != want_acq {
-                    problems.push(format!("json leg acquisition date {name}"));
-                }
-            }
-        }
-    }
-    let jh = js["holdings"].as_array().cloned().unwrap_or_default();
-    if jh.len() != rep.holdings.len() {
-        problems.push("json lists a different number of holdings".into());
-    }
-    for (h, k) in rep.holdings.iter().zip(jh.iter()) {
-        jexact(&format!("holding quantity {}", h.ticker), &k["quantity"], h.quantity, &mut atoms, &mut problems);
-        jmoney(&format!("holding total_cost {}", h.ticker), &k["total_cost"], h.total_cost, &mut atoms, &mut problems);
-    }
+    json_report_figures(&js, &rep, &mut atoms, &mut problems);
     leaf.ob_bool("C17.json-structure", problems.is_empty(), &problems.join("; "));
     leaf.ob("C17.json-figures", &vx::and(&atoms));
 
